@@ -545,6 +545,19 @@ fn run_all_orders(
         let reg = Registration { names, order: (0..l).collect(), one_by_one: true };
         let (obs, sources) = observe(bodies, &reg);
         Judge { levels, descs: descs.to_vec(), exp: &exp, reg: &reg, sources: &sources, prefix: "one-by-one:", count: true }.run(&obs, acc, tally);
+        let k = l - 1;
+        if acc.wants_sample() && l >= 2 && exp.valid_upto[k] && exp.renders[k].events & ev::SUPER != 0 && exp.renders[k].out.is_ok() {
+            acc.sample(|| {
+                json!({
+                    "templates": sources.iter().map(|(n, s)| json!({"name": n, "source": s})).collect::<Vec<_>>(),
+                    "registration": reg.words(),
+                    "registrations_of_this_chain": name_perms.len() * (perms.len() + 1),
+                    "adds": obs.adds.iter().map(|o| o.show()).collect::<Vec<_>>(),
+                    "render_of_last_level": obs.levels[k].as_ref().map(|x| x.render.show()),
+                    "reference": format!("{:?}", exp.renders[k].out),
+                })
+            });
+        }
     }
 }
 
@@ -663,7 +676,7 @@ fn main() {
                     let lv: Vec<&Level> = idx.iter().enumerate().map(|(k, &i)| &space.lv[k][i]).collect();
                     let bodies: Vec<&str> = idx.iter().enumerate().map(|(k, &i)| space.src[k][i].as_str()).collect();
                     let descs: Vec<&str> = idx.iter().enumerate().map(|(k, &i)| space.desc[k][i].as_str()).collect();
-                    run_canonical(&lv, &bodies, &descs, acc, &mut tally, item % 97 == 5, false);
+                    run_canonical(&lv, &bodies, &descs, acc, &mut tally, true, false);
                 }
                 tally.flush(acc);
             },
@@ -671,7 +684,7 @@ fn main() {
     };
     let words_full = format!("over the {}-option root alphabet and the {}-option child alphabet {{a, n, b}}", full_root.len(), full_rest.len());
     for l in 1..=3 {
-        chains_family(&mut run, &format!("chains-L{l}"), &full, l, &words_full, if thorough && l == 3 { Some(200.0) } else { None });
+        chains_family(&mut run, &format!("chains-L{l}"), &full, l, &words_full, if thorough && l == 3 { Some(240.0) } else { None });
     }
 
     // ---------------------------------------------------------------- registration orders
@@ -773,6 +786,9 @@ fn main() {
                             ),
                         }
                         acc.case(k >= 1, if got.is_ok() { "include:ok" } else { "include:err" });
+                        if k == l - 1 && k >= 1 && got.is_ok() && exp.renders[k].events & ev::SUPER != 0 && acc.wants_sample() {
+                            acc.sample(|| case(&call, &format!("{:?} inside <>", exp.renders[k].out), &got.show()));
+                        }
                     }
                 }
             },
@@ -789,7 +805,7 @@ fn main() {
         &l4,
         4,
         &format!("over the {}-option alphabet {} (a: 5 variants, n nested / top-level: 3 each{})", l4_opts.len(), if thorough { "{a, n, b}" } else { "{a, n}" }, if thorough { ", b: 3, bare in the root" } else { "" }),
-        if thorough { Some(300.0) } else { None },
+        if thorough { Some(420.0) } else { None },
     );
     if thorough {
         let small = inherit::alphabet_small();
@@ -840,7 +856,7 @@ fn main() {
                 let bodies: Vec<&str> = idx.iter().enumerate().map(|(k, &i)| space.src[k][i].as_str()).collect();
                 let descs: Vec<&str> = idx.iter().enumerate().map(|(k, &i)| space.desc[k][i].as_str()).collect();
                 let mut tally = Tally::default();
-                run_canonical(&lv, &bodies, &descs, acc, &mut tally, item % 5 == 0, true);
+                run_canonical(&lv, &bodies, &descs, acc, &mut tally, true, true);
                 tally.flush(acc);
             },
         );
@@ -910,7 +926,7 @@ fn main() {
                         let lv: Vec<&Level> = idx.iter().enumerate().map(|(k, &i)| &dev.lv[k][i]).collect();
                         let bodies: Vec<&str> = idx.iter().enumerate().map(|(k, &i)| dev.src[k][i].as_str()).collect();
                         let descs: Vec<&str> = idx.iter().enumerate().map(|(k, &i)| dev.desc[k][i].as_str()).collect();
-                        run_canonical(&lv, &bodies, &descs, acc, tally, item % 211 == 7, false);
+                        run_canonical(&lv, &bodies, &descs, acc, tally, true, false);
                     };
                     match pos.len() {
                         0 => go(&idx, acc, &mut tally),
